@@ -148,7 +148,7 @@ def scribble(obj, fr: Fresh, depth=0):
 
 OPS = ["set_u", "set_logl", "update", "commit", "get_current_key", "get_current_all", "get_history", "get_history_flat",
        "get_history_index", "get_last", "to_dict", "export_import", "export_from_dict", "results", "set_then_scribble_input", "set_readonly_view",
-       "set_nested_blobs", "commit_strict_refused", "commit_bigger_batch_then_read"]
+       "set_nested_blobs", "commit_strict_refused", "commit_bigger_batch_then_read", "update_nocopy_commit_replace_then_reuse"]
 
 
 def apply_op(ctx, op, st: StateManager, model: Model, fr: Fresh, tag):
@@ -211,6 +211,27 @@ def apply_op(ctx, op, st: StateManager, model: Model, fr: Fresh, tag):
         st.update_current({"u": a2, "logl": b2})
         model.set("u", a2)
         model.set("logl", b2)
+    elif op == "update_nocopy_commit_replace_then_reuse":
+        # the caller's own buffers go in with copy=False (the documented opt-out: it does not touch them while they are the current
+        # value), the batch is committed, the current value is replaced - and only then are the buffers reused for something else.
+        # The committed batch must not change (append-only history never shares memory with what the caller handed in).
+        a, b = fr.arr_u(), fr.arr_logl()
+        d = {"u": a, "logl": b, "beta": 1.0, "logz": fr.logz()}
+        keep = {k: Model.cp(v) for k, v in d.items()}
+        st.update_current(d, copy=False)
+        for k, v in keep.items():
+            model.set(k, v)
+        st.commit_current_to_history()
+        model.commit()
+        a2, b2 = fr.arr_u(), fr.arr_logl()
+        st.update_current({"u": a2, "logl": b2})
+        model.set("u", a2)
+        model.set("logl", b2)
+        scribble(a, fr)
+        scribble(b, fr)
+        last_u, last_l = st.get_last_history("u"), st.get_last_history("logl")
+        expect("committed-batch-unaffected-by-reuse-of-the-caller's-buffers",
+               z3.And(val_eq(last_u, model.hist["u"][-1]), val_eq(last_l, model.hist["logl"][-1])))
     elif op == "set_then_scribble_input":
         a = fr.arr_u()
         keep = a.copy()
@@ -437,6 +458,21 @@ def make_sequences(length):
                 for k in CURRENT_STATE_KEYS:
                     if k in HISTORY_STATE_KEYS and cur[k] is not None:
                         hist[k].append(cp(cur[k]))
+            elif op == "update_nocopy_commit_replace_then_reuse":
+                d = {"u": rng.rand(N, 1), "logl": -rng.rand(N), "beta": 0.5, "logz": -rng.rand()}
+                st.update_current(d, copy=False)
+                for k, v in d.items():
+                    cur[k] = cp(v)
+                st.commit_current_to_history()
+                for k in CURRENT_STATE_KEYS:
+                    if k in HISTORY_STATE_KEYS and cur[k] is not None:
+                        hist[k].append(cp(cur[k]))
+                d2 = {"u": rng.rand(N, 1), "logl": -rng.rand(N)}
+                st.update_current(d2)
+                for k, v in d2.items():
+                    cur[k] = cp(v)
+                scr(d["u"])  # the buffers are reused only after they stopped being the current value
+                scr(d["logl"])
             elif op == "get_current_key":
                 scr(st.get_current("u"))
             elif op == "get_current_all":
